@@ -1,10 +1,13 @@
+//go:build verif
 // +build verif
 
 package tcp
 
 import (
+	"sync"
 	"time"
 
+	"github.com/brewlin/net-protocol/pkg/sleep"
 	tcpip "github.com/brewlin/net-protocol/protocol"
 )
 
@@ -12,9 +15,49 @@ import (
 // fires on its own while a harness steps the stack; the harness expires them explicitly.
 const verifTimerScale = 1000
 
-// verifStretch stretches a duration used with time.AfterFunc / Timer.Reset outside the timer type (the handshake's
-// SYN retransmission, the reset after close), so that these do not fire on their own under a harness either.
-func verifStretch(d time.Duration) time.Duration { return d * verifTimerScale }
+// The timers armed with time.AfterFunc outside the timer type (the handshake's SYN retransmission, the reset after
+// close) are stretched like the others right after they have been armed, and kept in a registry so that a harness
+// can expire them all (to wind down the goroutines of a stack it is done with).
+var verifAdopted struct {
+	mu sync.Mutex
+	l  []verifAdoptedTimer
+}
+
+type verifAdoptedTimer struct {
+	t *time.Timer
+	w *sleep.Waker
+}
+
+func verifAdopt(t *time.Timer, d time.Duration, w *sleep.Waker) {
+	t.Reset(d * verifTimerScale)
+	verifAdopted.mu.Lock()
+	verifAdopted.l = append(verifAdopted.l, verifAdoptedTimer{t, w})
+	verifAdopted.mu.Unlock()
+}
+
+func verifRestretch(t *time.Timer, d time.Duration) { t.Reset(d * verifTimerScale) }
+
+// VerifFireAdoptedTimers expires every registered timer that is still pending (its waker is asserted, as the
+// timer's own function would) and forgets those that are not; it reports how many it expired.
+func VerifFireAdoptedTimers() int {
+	verifAdopted.mu.Lock()
+	l := verifAdopted.l
+	verifAdopted.l = nil
+	verifAdopted.mu.Unlock()
+	n := 0
+	var keep []verifAdoptedTimer
+	for _, a := range l {
+		if a.t.Stop() {
+			a.w.Assert()
+			keep = append(keep, a)
+			n++
+		}
+	}
+	verifAdopted.mu.Lock()
+	verifAdopted.l = append(keep, verifAdopted.l...)
+	verifAdopted.mu.Unlock()
+	return n
+}
 
 type timerVerif struct {
 	lastD time.Duration // the duration the timer was last armed with (unscaled)
